@@ -26,9 +26,13 @@ Side conditions `HOpOK` (closed world; each is written where it is used):
 the erc20 module account signs nothing (it is no message sender, token holder or bank sender) and
 receives coins only through conversions; holders that send Ethereum transactions are not blocked
 addresses (module accounts have no keys); hooks fire only through real transactions (no forged
-receipts); an ERC-20's coin does not circulate before the token is registered; `Fresh` (C15);
-**`ConvertCoin` carries no denomination of hex-address form** — the excluded point is a genuine
-violation of this property on the real code, see `design_notes/erc20.md` (finding E1).
+receipts); an ERC-20's coin does not circulate before the token is registered; `Fresh` (C15).
+
+History: before the repair of finding E1 (`design_notes/erc20.md`) `ConvertCoin` accepted a
+denomination of hex-address form, which `GetTokenPairID` routes to the *address* index: the coin
+escrowed was not the one paired with the tokens minted and `native_backing` failed.  The guard is now
+part of the model (`convertCoin`), `ConvertCoinFacts.hNotHex` records it, and the theorem needs no
+side condition on the denomination.
 -/
 namespace CV
 namespace Erc20
@@ -48,8 +52,9 @@ theorem backing_hstep {env : Env} {cfg : Cfg} {h : HWorld} {op : HOp} {w' : Worl
     cases kop with
     | convertCoin m =>
       simp only [ghostAfter]
-      obtain ⟨hx, hsm⟩ := hok
+      have hsm := hok
       obtain ⟨F⟩ := convertCoin_ok (by simpa [step] using hs)
+      have hx := F.hNotHex
       obtain ⟨_, ⟨i, hi, hp⟩, _, hnb, _⟩ := gate_ok F.hGate
       obtain ⟨e1, _⟩ := AddrStr.decode_ok F.hSender
       have hpd : F.p.denom = m.denom.s := by
